@@ -3,11 +3,8 @@ from . import kernel, whomay, nondet
 
 def check(ctx):
     kernel.run_tables(ctx, 'C03', [
-        ('Environment', 'run'), ('Environment', 'step'), ('Environment', 'schedule'), ('StopSimulation', 'callback'),
-        ('Environment', '__init__'), ('Environment', 'peek'),
+        ('Environment', 'run'), ('Environment', 'step'), ('StopSimulation', 'callback'),
     ])
-    whomay.schedule_sites(ctx, 'C03')
-    whomay.kernel_state_writers(ctx, 'C03')
     nondet.sources(ctx, 'C03')
     return ('Static: Environment.run path table compared with the reference (numeric until refused when at <= now, '
             'fresh sentinel scheduled URGENT at at-now, stop callback only on that private sentinel; event until: value '
